@@ -200,6 +200,18 @@ fn dedupe(out: &mut CaseOut, keep: usize) {
 // ------------------------------------------------------------------------------------------------
 
 /// A statement that fails, and why. `{POS}`-style construction: the failing row index is chosen.
+/// Statements that fail only at run time with an error that is *classified* as a syntax error
+/// (negative / non-integer SKIP and LIMIT parameters, a missing parameter) after earlier clauses
+/// have already buffered writes. Returns (kind, statement, parameters as JSON).
+fn gen_failing_with_params(rng: &mut Rng, uid: i64) -> (&'static str, String, Option<String>) {
+    match rng.below(4) {
+        0 => ("runtime:negative-limit-parameter-after-set", "MATCH (n:Q) SET n.touched = 1 WITH n LIMIT $k RETURN n.uid".to_string(), Some("{\"k\": -1}".to_string())),
+        1 => ("runtime:non-integer-skip-parameter-after-create", format!("CREATE (g:F {{uid: {uid}}}) WITH g SKIP $k RETURN g.uid"), Some("{\"k\": \"two\"}".to_string())),
+        2 => ("runtime:missing-parameter-after-create", format!("CREATE (g:F {{uid: {uid}}}) WITH g RETURN $missing"), None),
+        _ => ("runtime:negative-skip-parameter-after-merge", format!("MERGE (g:F {{uid: {uid}}}) WITH g SKIP $k RETURN g.uid"), Some("{\"k\": -3}".to_string())),
+    }
+}
+
 fn gen_failing(rng: &mut Rng, uid: i64) -> (&'static str, String) {
     let len = 2 + rng.below(4);
     let pos = rng.below(len);
@@ -234,12 +246,20 @@ fn c13_case(seed: u64, k: usize, out: &mut CaseOut) -> Option<Violation> {
     let mut uid = 200i64;
     let mut with: Vec<(String, bool)> = Vec::new();
     let mut fkind = "";
+    let mut fparams: Option<String> = None;
     for i in 0..n {
         uid += 10;
         if i == fail_at {
-            let (kd, s) = gen_failing(&mut rng, uid);
-            fkind = kd;
-            with.push((s, true));
+            if rng.chance(1, 4) {
+                let (kd, s, p) = gen_failing_with_params(&mut rng, uid);
+                fkind = kd;
+                fparams = p;
+                with.push((s, true));
+            } else {
+                let (kd, s) = gen_failing(&mut rng, uid);
+                fkind = kd;
+                with.push((s, true));
+            }
         } else {
             with.push((gen_ok(&mut rng, uid), false));
         }
@@ -260,7 +280,7 @@ fn c13_case(seed: u64, k: usize, out: &mut CaseOut) -> Option<Violation> {
                 if *failing && !include_failing {
                     continue;
                 }
-                match t.query(s, None) {
+                match t.query(s, if *failing { fparams.as_deref() } else { None }) {
                     Ok(()) => {}
                     Err(e) if *failing => {
                         failed = true;
@@ -275,7 +295,7 @@ fn c13_case(seed: u64, k: usize, out: &mut CaseOut) -> Option<Violation> {
                 if *failing && !include_failing {
                     continue;
                 }
-                match c.execute_write(s, None) {
+                match c.execute_write(s, if *failing { fparams.as_deref() } else { None }) {
                     Ok(_) => {}
                     Err(_) if *failing => failed = true,
                     Err(e) => other.push(format!("{s}: {}", e.message)),
@@ -411,7 +431,7 @@ fn c14_case(seed: u64, k: usize, out: &mut CaseOut) -> Vec<Violation> {
     let steps = 6 + rng.below(14);
     for _ in 0..steps {
         let live: Vec<i64> = nodes.iter().copied().collect();
-        let choice = rng.weighted(&[25, 20, 14, 10, 10, 8, 5, 4, 8]);
+        let choice = rng.weighted(&[25, 20, 14, 10, 10, 8, 5, 4, 8, 8]);
         let (stmt, expect_refusal, kind): (String, Option<bool>, &str) = match choice {
             0 => {
                 uid += 1;
@@ -453,6 +473,33 @@ fn c14_case(seed: u64, k: usize, out: &mut CaseOut) -> Vec<Violation> {
             6 => {
                 let _ = db.compact();
                 ("/* compact */".into(), None, "compact")
+            }
+            9 if live.len() >= 2 => {
+                // ONE transaction: the same relationship is created twice, then an endpoint is
+                // DETACH DELETEd; nothing of the deleted node's relationships may survive
+                let (a, b) = (*rng.pick(&live), *rng.pick(&live));
+                if a == b {
+                    continue;
+                }
+                let s1 = format!("MATCH (a:N {{uid: {a}}}), (b:N {{uid: {b}}}) UNWIND [1, 2] AS i CREATE (a)-[:R]->(b)");
+                let s2 = format!("MATCH (n:N {{uid: {a}}}) DETACH DELETE n");
+                history.push(format!("BEGIN; {s1}; {s2}; COMMIT"));
+                out.evaluations += 1;
+                out.count("duplicate_create_then_detach_delete_in_one_transaction", 1);
+                out.count("delete_statements", 1);
+                out.cell("duplicate-create-then-detach-delete-in-one-transaction".to_string());
+                let mut txn = db.begin_write();
+                let snap = db.snapshot();
+                let r1 = ndb_core::query::prepare(&s1).and_then(|p| p.execute_mixed(&snap, &mut txn, &params));
+                let r2 = ndb_core::query::prepare(&s2).and_then(|p| p.execute_mixed(&snap, &mut txn, &params));
+                if r1.is_ok() && r2.is_ok() && txn.commit().is_ok() {
+                    nodes.remove(&a);
+                    rels.retain(|(x, y)| *x != a && *y != a);
+                } else {
+                    out.inconclusive("duplicate-create-transaction-failed");
+                    return viols;
+                }
+                ("/* transaction */".into(), None, "duplicate-create-then-detach-delete")
             }
             8 if live.len() >= 2 => {
                 // two statements in ONE explicit transaction: create a relationship, then delete an
